@@ -155,6 +155,9 @@ pub fn hostile() -> Vec<Vec<u8>> {
         b"=".to_vec(),
         b"bytes=-11".to_vec(),
         b"bytes=5-".to_vec(),
+        b"bytes=11".to_vec(),     // a lone number beyond the 10-byte file
+        b"%\xe2\x82\xac".to_vec(),  // a stray percent sign in front of a multi-byte character
+        b"%a\xe2\x82\xac".to_vec(),
         b"Content-Length".to_vec(),
         b"Range".to_vec(),
         b"attachment".to_vec(),
@@ -243,11 +246,21 @@ pub enum AppKind {
     Shipped,
     Ok200,
     Err,
+    /// Err(reason) with a long non-ASCII reason: 1500 repetitions of a 2-, 3- or 4-byte character
+    /// after 0..w-1 ASCII bytes (index 0..8), so that any fixed byte offset falls inside a character
+    ErrText(u8),
     Unregistered,
+}
+pub const ERR_TEXT_NAMES: [&str; 9] = ["scripted-err-text-0", "scripted-err-text-1", "scripted-err-text-2", "scripted-err-text-3", "scripted-err-text-4", "scripted-err-text-5", "scripted-err-text-6", "scripted-err-text-7", "scripted-err-text-8"];
+pub fn err_text(i: u8) -> String {
+    let combos: [(&str, usize); 9] = [("\u{439}", 0), ("\u{439}", 1), ("\u{20ac}", 0), ("\u{20ac}", 1), ("\u{20ac}", 2), ("\u{1F600}", 0), ("\u{1F600}", 1), ("\u{1F600}", 2), ("\u{1F600}", 3)];
+    let (ch, shift) = combos[(i as usize) % 9];
+    format!("{}{}", "a".repeat(shift), ch.repeat(1500))
 }
 impl AppKind {
     pub fn name(&self) -> &'static str {
         match self {
+            AppKind::ErrText(i) => ERR_TEXT_NAMES[(*i as usize) % 9],
             AppKind::Shipped => "shipped",
             AppKind::Ok200 => "scripted-ok",
             AppKind::Err => "scripted-err",
@@ -258,6 +271,7 @@ impl AppKind {
         match s {
             "scripted-ok" => AppKind::Ok200,
             "scripted-err" => AppKind::Err,
+            x if x.starts_with("scripted-err-text-") => AppKind::ErrText(x[18..].parse().unwrap_or(0)),
             "scripted-unregistered-status" => AppKind::Unregistered,
             _ => AppKind::Shipped,
         }
@@ -466,6 +480,11 @@ pub fn for_each_opt(thorough: bool, pairs: bool, f: &mut dyn FnMut(Case)) {
         }
         for a in [AppKind::Ok200, AppKind::Err, AppKind::Unregistered] {
             f(Case { family: "app", gen: json!({"kind":"mutation","seed":si,"devs":[]}), bytes: full.clone(), entry: Entry::Process, app: a, read: ReadKind::Full, request_size: 10000 });
+        }
+        if si < 2 {
+            for i in 0..9u8 {
+                f(Case { family: "app", gen: json!({"kind":"mutation","seed":si,"devs":[]}), bytes: full.clone(), entry: Entry::Process, app: AppKind::ErrText(i), read: ReadKind::Full, request_size: 10000 });
+            }
         }
     }
     // 5. structural series: k header lines, several line shapes and buffer sizes
